@@ -1450,6 +1450,56 @@ def _run_deform(cfg):
             rec.viol(site, 'template[F]_' + _exc(ex), '%s: %r' % (where, ex))
         templ = templ_c
 
+    if last is not None and d >= 2:
+        # memory layout of the DISPLACEMENT components (the cycling field): each layout for all
+        # components, for component 0 only and for the last component only (mixed C / non-C),
+        # as wrapped arrays and as elements built with order='F'; out-of-place and in-place.
+        # (a broadcast view is copied by element() and therefore not a separate layout)
+        disp, want, ok, fld = last
+        comps = [np.array(disp[a].asarray()) for a in range(d)]
+        rspace = vspace[0]
+        variants = []
+        for li in range(4):
+            lname = _value_layouts(comps[0])[li][0]
+
+            def lay(c, li=li):
+                return _value_layouts(c)[li][1]
+            variants.append(('all components %s' % lname, [lay(c) for c in comps]))
+            variants.append(('component 0 %s' % lname, [lay(comps[0])] + comps[1:]))
+            variants.append(('last component %s' % lname, comps[:-1] + [lay(comps[-1])]))
+        variants.append(('parts built with element(order=F)',
+                         [rspace.element(c, order='F') for c in comps]))
+        variants.append(('part 0 built with element(order=F)',
+                         [rspace.element(comps[0], order='F')] + comps[1:]))
+        for vname, parts in variants:
+            try:
+                dv = vspace.element(parts)
+                nonc = any(not dv[a].asarray().flags.c_contiguous for a in range(d))
+                rec.sigs.add('deform|displacement %s' % ('non-C' if nonc else 'C'))
+                got = np.asarray(call(dv))
+                rec.evals += 1
+                if not _same(got, want, exact, npdt, ok):
+                    rec.viol(site, 'values_differ[displacement layout]',
+                             '%s template %s displacement %s, %s (strides %s): expected %s, '
+                             'got %s' % (where, _short(g), fld[:4], vname,
+                                         [dv[a].asarray().strides for a in range(d)],
+                                         _short(want), _short(got)))
+                if via == 'function':
+                    o = np.empty(sp.shape, dtype=npdt)
+                else:
+                    o = sp.element(np.zeros(sp.shape, dtype=npdt))
+                call(dv, out=o)
+                rec.evals += 1
+                if not _same(np.asarray(o), want, exact, npdt, ok):
+                    rec.viol(site, 'out_call_differs[displacement layout]',
+                             '%s displacement %s, %s: expected %s, got %s'
+                             % (where, fld[:4], vname, _short(want), _short(np.asarray(o))))
+                if any(not np.array_equal(dv[a].asarray(), comps[a]) for a in range(d)):
+                    rec.viol(site, 'input_modified', '%s displacement %s' % (where, vname))
+            except Exception as ex:
+                rec.viol(site, 'displacement_layout_' + _exc(ex),
+                         '%s %s: %r' % (where, vname, ex))
+
     # out=: "It must have the same shape as template ... If out was given, the returned
     # object is a reference to it."  (operators: the usual op(x, out=element))
     if last is not None:
@@ -2035,7 +2085,11 @@ def meta(tier):
             'value_array_layouts': 'C, Fortran, transposed view, strided slice of a larger array, '
                                    'negative stride, broadcast row (ndim >= 2; mesh and point '
                                    'array input; the value array must stay unmodified); '
-                                   'Resampling / linear_deform also with F-ordered elements',
+                                   'Resampling / linear_deform also with F-ordered elements; '
+                                   'linear_deform and the LinDeform operators also with the '
+                                   'DISPLACEMENT components in F / transposed / strided / '
+                                   'negative-stride layout (all, first only, last only) and '
+                                   'as elements built with order=F, out-of-place and in-place',
             'out_layouts': 'fresh C-contiguous, Fortran-ordered (ndim >= 2), every second entry '
                            'of the last axis of a larger buffer (the gaps must stay untouched); '
                            'linear_deform also with out = the data array of the template',
